@@ -542,6 +542,11 @@ def check_sq4(run, pkg, pbc, nl, sel, slow):
         run.ob("R-SIB", fq, f"{cfg}:sq-frame", oks, "S4 is evaluated on the origin frame" + (" of the wrapped trajectory" if both else ""), show(snap)[:70] if snap else "?",
                witness=None if oks else "structure factor taken at another frame / trajectory", loc=loc_of(it, ce), sound=True)
         okm, how, gx, gy = eq_terms(condt, mob) if condt is not None else (None, "", None, None)
+        if okm is None and condt is not None:
+            # both are combinations of the same leaf masks (mobility test, selection): decided by truth table
+            okb, howb = bool_equiv(canon(condt), canon(mob))
+            if okb is not None:
+                okm, how = okb, howb
         run.ob("R-SIB", fq, f"{cfg}:mobility", okm, f"selected particles are the {'slow (<' if slow else 'fast (>'} cutoff) ones of the pair (origin, origin+n_t), "
                "with origin-frame cell / neighbour list / selection", f"code: {show(condt)[:200] if condt else '?'}",
                witness=None if okm is not False else f"{cfg}: mobility mask differs from the definition; expected {show(mob)[:160]} ({how[:120]})", loc=loc_of(it, ce), sound=True)
